@@ -49,6 +49,14 @@ Theorem c18_strprefix_guard_refuted :
     ~ seg_prefix (segs (abspath cwd root_arg)) (segs a).
 Proof. exact strprefix_guard_refuted. Qed.
 
+(** os.path.commonprefix (character-wise) as the guard: rejected by the recogniser and refuted by the same witness. *)
+Theorem c18_commonprefix_guard_refuted :
+  raise_sound guard_commonprefix = false /\
+  exists cwd root_arg path a,
+    is_abs cwd = true /\ resolve guard_commonprefix true cwd root_arg path = Ok a /\
+    ~ seg_prefix (segs (abspath cwd root_arg)) (segs a).
+Proof. exact commonprefix_guard_refuted. Qed.
+
 (** packlist.unify_path: an accepted path never steps above its base directory, except the bare '..'. *)
 Theorem c18_unify_path_no_parent : forall p r, unify_path p = Some r ->
   stays_below 0 (segs r) = true \/ segs r = [dd].
